@@ -89,7 +89,8 @@ class Check:
         out_lines = []
         n_known = 0
         n_new = 0
-        os.makedirs(os.path.join(VERIF, "replays"), exist_ok=True)
+        rdir = os.path.join(VERIF, "replays") if EVID == os.path.join(VERIF, "evidence") else os.path.join(EVID, "replays")
+        os.makedirs(rdir, exist_ok=True)
         seen = set()
         for v in self.violations:
             if v["key"] in seen:
@@ -102,7 +103,7 @@ class Check:
                 continue
             n_new += 1
             h = hashlib.sha1(v["key"].encode()).hexdigest()[:12]
-            rp = os.path.join(VERIF, "replays", "%s-%s.json" % (self.prop, h))
+            rp = os.path.join(rdir, "%s-%s.json" % (self.prop, h))
             with open(rp, "w") as fh:
                 json.dump({"property": self.prop, "tier": self.tier, **v}, fh, indent=1)
             out_lines.append("  %s %s: %s" % (v["loc"] or "", v["key"], v["msg"]))
@@ -159,8 +160,9 @@ def load_known():
 
 def fail_closed(prop, tier, level, err):
     """the rule itself is broken on this tree: report as a violation with an explanatory replay"""
-    os.makedirs(os.path.join(VERIF, "replays"), exist_ok=True)
-    rp = os.path.join(VERIF, "replays", "%s-rule-broken.json" % prop)
+    rdir = os.path.join(VERIF, "replays") if EVID == os.path.join(VERIF, "evidence") else os.path.join(EVID, "replays")
+    os.makedirs(rdir, exist_ok=True)
+    rp = os.path.join(rdir, "%s-rule-broken.json" % prop)
     with open(rp, "w") as fh:
         json.dump({"property": prop, "rule_could_not_be_evaluated": str(err)}, fh, indent=1)
     ev = {
